@@ -12,10 +12,10 @@ import (
 //
 //gsx:bound strlen=12
 func gsxC16ShortenLocation() {
-	loc := gsxrt.StringN("loc", 10)
-	wd := gsxrt.StringN("workDir", 5)
-	gopath := gsxrt.StringN("gopath", 5)
-	goroot := gsxrt.StringN("goroot", 5)
+	loc := gsxrt.StringN("loc", gsxrt.Bound("loclen", 10))
+	wd := gsxrt.StringN("workDir", gsxrt.Bound("rootlen", 5))
+	gopath := gsxrt.StringN("gopath", gsxrt.Bound("rootlen", 5))
+	goroot := gsxrt.StringN("goroot", gsxrt.Bound("rootlen", 5))
 	// what parseArgs establishes (addTrailingSlash): roots end in the separator;
 	// the unit test also uses an empty working directory.
 	gsxrt.Assume(wd == "" || strings.HasSuffix(wd, "/"))
@@ -45,4 +45,43 @@ func gsxC16ShortenLocation() {
 		resolved = goroot + out[len("$GOROOT/"):]
 	}
 	gsxrt.Assert(resolved == loc, "printed location does not resolve to the diagnostic's file")
+}
+
+// gsxC16RootInsidePath: the layout the property names explicitly - one root
+// occurring again further down the path (a repository directory called like
+// the GOPATH/GOROOT/working directory). The location is built as
+// root ++ mid ++ root' ++ tail where root' is the root without its leading
+// separator... i.e. the root's text re-appears; roots long enough for the
+// "$GOPATH/" form to win (8 bytes).
+func gsxC16RootInsidePath() {
+	seg := gsxrt.StringN("seg", 7)
+	gsxrt.Assume(gsxrt.Matches(`^[a-z]{7}$`, seg))
+	root := "/" + seg + "/"
+	mid := gsxrt.StringN("mid", 3)
+	tail := gsxrt.StringN("tail", 3)
+	gsxrt.Assume(gsxrt.Matches(`^[a-z]*$`, mid) && gsxrt.Matches(`^[a-z.]*$`, tail))
+	loc := root + mid + root + tail
+	other := "/" + gsxrt.StringN("other", 3) + "/"
+	gsxrt.Assume(gsxrt.Matches(`^/[A-Z]*/$`, other))
+	p := &program{}
+	switch gsxrt.Choose("which", 3) {
+	case 0:
+		p.workDir, p.gopath, p.goroot = "", root, other
+	case 1:
+		p.workDir, p.gopath, p.goroot = "", other, root
+	case 2:
+		p.workDir, p.gopath, p.goroot = root, other, other
+	}
+	out := p.shortenLocation(loc)
+	gsxrt.Reached("shortened")
+	resolved := out
+	switch {
+	case strings.HasPrefix(out, "./"):
+		resolved = p.workDir + out[len("./"):]
+	case strings.HasPrefix(out, "$GOPATH/"):
+		resolved = p.gopath + out[len("$GOPATH/"):]
+	case strings.HasPrefix(out, "$GOROOT/"):
+		resolved = p.goroot + out[len("$GOROOT/"):]
+	}
+	gsxrt.Assert(resolved == loc, "printed location does not resolve to the diagnostic's file (root occurs twice)")
 }
